@@ -11,6 +11,16 @@ NeedsB == [v \in {"v1", "v2"} |->
                         ELSE {<<"tree", "t2">>, <<"data", "d1">>, <<"data", "d2">>}]
 NeedsCollide == [v \in {"v1"} |-> {<<"tree", "r">>, <<"tree", "x">>, <<"data", "x">>}]
 
+\* derived snapshots: m is the merge of v1 and v2 (its own root tree, the data of both)
+NeedsDerive == [v \in {"v1", "v2", "m"} |->
+                 CASE v = "v1" -> {<<"tree", "t1">>, <<"data", "d1">>}
+                   [] v = "v2" -> {<<"tree", "t2">>, <<"data", "d1">>, <<"data", "d2">>}
+                   [] OTHER -> {<<"tree", "tm">>, <<"tree", "t2">>, <<"data", "d1">>, <<"data", "d2">>}]
+NeedsDerive1 == [v \in {"v1", "m"} |-> IF v = "v1" THEN {<<"tree", "t1">>, <<"data", "d1">>} ELSE {<<"tree", "tm">>, <<"data", "d1">>}]
+DeriveM1 == [v \in Version |-> IF v = "m" THEN {"v1"} ELSE {}]
+NoDerive == [v \in Version |-> {}]
+DeriveM == [v \in Version |-> IF v = "m" THEN {"v1", "v2"} ELSE {}]
+
 View == <<packs, idx, snaps, now, nextp, nexti, ncmd, loc>>
 
 \* behaviours for replay on the real code: one history per distinct quiescent end state
